@@ -88,6 +88,77 @@ type c15Item struct {
 	Opener string // "//" or the name of the opener variant
 	Shape  string
 	Tokens int
+	Toks   []c15Token
+}
+
+// c15Safe spells a token class with file-name-safe characters.
+func c15Safe(c string) string {
+	r := strings.NewReplacer("@", "at-", ",", "comma", ".", "dot", "&", "amp-", ";", "semi", "*", "star", "_id", "underscore-id")
+	switch c {
+	case "_":
+		return "blank"
+	case "-":
+		return "dash"
+	case "@":
+		return "at"
+	case "&":
+		return "amp"
+	}
+	return r.Replace(c)
+}
+
+// c15Focus describes, for counterexample signatures, where keyword kw sits in the token
+// sequence: what precedes it, what follows it directly, and the class of its first argument.
+func c15Focus(it c15Item, kw string) string {
+	idx := -1
+	for i, t := range it.Toks {
+		if t.Text == "@"+kw {
+			idx = i
+			break
+		}
+	}
+	if idx < 0 {
+		for _, t := range it.Toks {
+			if t.Class != "_" {
+				return "head=" + c15Safe(t.Class)
+			}
+		}
+		return "head=none"
+	}
+	pre := "start"
+	for _, t := range it.Toks[:idx] {
+		if t.Class == "VT" || t.Class == "NBSP" {
+			pre = "blank-lookalike"
+		} else if t.Class != "_" {
+			pre = "text"
+			break
+		}
+	}
+	if pre != "start" || it.Opener != "line" {
+		return "pre=" + pre + "|sep=any|arg=any" // the keyword is not where the grammar wants it: what follows is immaterial
+	}
+	sep, arg := "end", "none"
+	takesArg := kw == "constructor" || kw == "implements" || kw == "packageonly" || kw == "ignore"
+	if idx+1 < len(it.Toks) {
+		sep = it.Toks[idx+1].Class
+		switch sep {
+		case "_":
+			arg = "end"
+			for _, t := range it.Toks[idx+2:] {
+				if t.Class != "_" {
+					arg = t.Class
+					if !takesArg {
+						arg = "text"
+					}
+					break
+				}
+			}
+		case "VT", "NBSP":
+		default:
+			sep = "glued"
+		}
+	}
+	return "pre=" + pre + "|sep=" + c15Safe(sep) + "|arg=" + c15Safe(arg)
 }
 
 type c15Unit struct {
@@ -320,15 +391,20 @@ func (b *c15Batch) flush() {
 		gs, ws := c15Normalise(g, r), c15Normalise(want, r)
 		if gs != ws {
 			it := items[u.item]
+			gl, wl := c15NormaliseList(g, r), c15NormaliseList(want, r)
 			kw := r.Kind
-			if kw == "" {
-				kw = "-"
+			if kw == "" && len(gl) > 0 {
+				kw = gl[0].Kind
+			}
+			gk, wk := c15Abstract(gl), c15Abstract(wl)
+			diff := "kind"
+			if gk == wk {
+				diff = "detail"
 			}
 			b.run.Report(common.Cex{
-				Sig: fmt.Sprintf("grammar|site=%s|open=%s|kw=%s|shape=%s|got=%s|want=%s", u.site, it.Opener, kw, it.Shape,
-					c15Abstract(c15NormaliseList(g, r)), c15Abstract(c15NormaliseList(want, r))),
+				Sig:     fmt.Sprintf("grammar|site=%s|open=%s|kw=%s|%s|got=%s|want=%s|diff=%s", u.site, it.Opener, kw, c15Focus(it, kw), gk, wk, diff),
 				Summary: fmt.Sprintf("comment %s as %s: implementation read {%s}, documented grammar says {%s}", strconv.Quote(it.Text), c15SiteName(u.site), gs, ws),
-				Detail:  map[string]any{"comment": it.Text, "site": u.site, "got": gs, "want": ws, "reference": fmt.Sprintf("%+v", r)},
+				Detail:  map[string]any{"comment": it.Text, "shape": it.Shape, "site": u.site, "got": gs, "want": ws, "reference": fmt.Sprintf("%+v", r)},
 			})
 		}
 	}
@@ -487,30 +563,14 @@ func c15Join(es []c15Entry) string {
 
 func c15Normalise(es []c15Entry, r c15Ref) string { return c15Join(c15NormaliseList(es, r)) }
 
-// c15Abstract keeps the kinds and list sizes only (for signatures).
+// c15Abstract keeps the annotation kinds only (for signatures).
 func c15Abstract(es []c15Entry) string {
 	if len(es) == 0 {
 		return "none"
 	}
 	var s []string
 	for _, e := range es {
-		d := e.Detail
-		if i := strings.Index(d, "["); i >= 0 {
-			n := 0
-			in := strings.TrimSuffix(d[i+1:], "]")
-			if in != "" {
-				n = strings.Count(in, ",") + 1
-			}
-			if in == "?" {
-				d = d[:i] + "[?]"
-			} else {
-				d = fmt.Sprintf("%s[%d]", d[:i], n)
-			}
-		}
-		if e.Kind == "implements" {
-			d = "(…)"
-		}
-		s = append(s, e.Kind+d)
+		s = append(s, e.Kind)
 	}
 	return strings.Join(s, "+")
 }
@@ -556,7 +616,11 @@ func (e *c15Enum) visit(body []byte, seq []int, wrap func(body string) (text, op
 		return
 	}
 	e.seen[key] = struct{}{}
-	e.emit(c15Item{Text: text, Opener: opener, Shape: c15Shape(e.alpha, seq), Tokens: len(seq)})
+	toks := make([]c15Token, len(seq))
+	for i, t := range seq {
+		toks[i] = e.alpha[t]
+	}
+	e.emit(c15Item{Text: text, Opener: opener, Shape: c15Shape(e.alpha, seq), Tokens: len(seq), Toks: toks})
 }
 
 // product enumerates the Cartesian product of the given token sets (one set per position).
@@ -588,7 +652,7 @@ func (e *c15Enum) product(sets [][]int, wrap func(string) (string, string, bool)
 	rec(0)
 }
 
-func c15WrapLine(body string) (string, string, bool) { return "//" + body, "//", true }
+func c15WrapLine(body string) (string, string, bool) { return "//" + body, "line", true }
 
 type c15OpenerSpec struct {
 	Name string
@@ -598,12 +662,12 @@ type c15OpenerSpec struct {
 func c15Openers() []c15OpenerSpec {
 	blockOK := func(b string) bool { return !strings.Contains(b, "*/") }
 	return []c15OpenerSpec{
-		{"///", func(b string) (string, string, bool) { return "///" + b, "///", true }},
-		{"// //", func(b string) (string, string, bool) { return "// //" + b, "// //", true }},
-		{"/*…*/", func(b string) (string, string, bool) { return "/*" + b + "*/", "/*…*/", blockOK(b) }},
-		{"/*//…*/", func(b string) (string, string, bool) { return "/*//" + b + "*/", "/*//…*/", blockOK(b) }},
-		{"/*⏎//…⏎*/", func(b string) (string, string, bool) { return "/*\n//" + b + "\n*/", "/*⏎//…⏎*/", blockOK(b) }},
-		{"/*⏎…⏎*/", func(b string) (string, string, bool) { return "/*\n" + b + "\n*/", "/*⏎…⏎*/", blockOK(b) }},
+		{"///", func(b string) (string, string, bool) { return "///" + b, "triple-slash", true }},
+		{"// //", func(b string) (string, string, bool) { return "// //" + b, "nested-line", true }},
+		{"/*…*/", func(b string) (string, string, bool) { return "/*" + b + "*/", "block", blockOK(b) }},
+		{"/*//…*/", func(b string) (string, string, bool) { return "/*//" + b + "*/", "block-with-line", blockOK(b) }},
+		{"/*⏎//…⏎*/", func(b string) (string, string, bool) { return "/*\n//" + b + "\n*/", "multiline-block-with-line", blockOK(b) }},
+		{"/*⏎…⏎*/", func(b string) (string, string, bool) { return "/*\n" + b + "\n*/", "multiline-block", blockOK(b) }},
 	}
 }
 
